@@ -27,6 +27,7 @@ type Stats struct {
 	Time                time.Duration
 	MaxQuery            time.Duration
 	Fallbacks           int
+	Cvc5                int
 }
 
 // Solver drives one long-lived SMT-LIB2 solver process over a pipe.
@@ -46,6 +47,7 @@ type Solver struct {
 	dead    bool
 	defaultTimeout int
 	QuickMs int
+	NoTactic bool // leave queries the incremental core cannot decide quickly to the caller (cvc5)
 	PreferTactic bool // go straight to the bit-blasting tactic (assertion queries)
 	LastErr string
 }
@@ -332,11 +334,11 @@ func (s *Solver) CheckModel(vars []*Term, timeoutMs int, assuming ...*Term) (Res
 			quick = full
 		}
 		r = Unknown
-		if !s.PreferTactic {
+		if !s.PreferTactic || s.NoTactic {
 			s.raw("(set-option :timeout " + strconv.Itoa(quick) + ")\n(check-sat)\n")
 			r = s.classify(s.sync())
 		}
-		if r == Unknown && !s.dead {
+		if r == Unknown && !s.dead && !s.NoTactic {
 			s.Stats.Fallbacks++
 			s.raw("(set-option :timeout " + strconv.Itoa(full) + ")\n(check-sat-using (then simplify solve-eqs bit-blast sat))\n")
 			r = s.classify(s.sync())
